@@ -136,19 +136,18 @@ def g1(prog):
     pred = prog.func_opt("(anonymous namespace)::attr_should_be_integrated")
     if pred is None:
         raise Broken("anchor attr_should_be_integrated vanished")
-    sw = [x for x in walk(pred["body"]) if x.get("k") == "switch"]
-    if len(sw) != 1:
-        raise Broken("attr_should_be_integrated is no longer one switch (unmodelled shape)")
+    # decided by evaluating the predicate's source on every DW_AT_* code of dwarf.h (plus one code no header names)
+    from absint import Evaluator
+    names = _enum_names(prog, "DW_AT_")
+    ev = Evaluator({}, {}, prog=prog)
     excluded = set()
-    default_true = None
-    for labels, stmts in switch_groups(sw[0]):
-        rets = [x for s in stmts for x in walk(s) if x.get("k") == "return"]
-        val = unwrap(rets[0]["e"]).get("v") if rets and isinstance(unwrap(rets[0]["e"]), dict) else None
-        for l in labels:
-            if l == "default":
-                default_true = val
-            elif val is False:
-                excluded.add(unwrap(l).get("n") or unwrap(l).get("q"))
+    for code in sorted(names) + [0x3ff0]:
+        r = ev.call(pred, None, [code])
+        if not isinstance(r, bool):
+            raise Broken("attr_should_be_integrated does not evaluate to a boolean for code %#x" % code)
+        if not r:
+            excluded.update(names.get(code, ["%#x" % code]))
+    default_true = ev.call(pred, None, [0x3ff0]) is True
     key = "G1:attr_should_be_integrated"
     inst.append((key, {"excluded": sorted(excluded), "default_integrates": default_true}))
     if excluded != {"DW_AT_sibling", "DW_AT_declaration"} or default_true is not True:
@@ -678,8 +677,18 @@ def m1(prog):
     if not fs:
         raise Broken("anchor import_partial_units vanished")
     seen = set()
+    from inline import Inliner
+
+    def want(call, caller):
+        # file-local helpers (anonymous namespace, non-member) are read as part of the function
+        if not call.get("own") or call.get("virt") or call.get("cls"):
+            return None
+        callee = prog.funcs.get(call.get("fid"))
+        if callee is None or callee.get("body") is None or callee.get("file") != caller.get("file"):
+            return None
+        return callee if callee["q"].startswith("(anonymous namespace)::") and callee["n"] != "get_it_range" else None
     for f in fs:
-        g = CFG(f)
+        g = Inliner(prog, want, maxdepth=2).build(f)
         # the resolution condition: the cond node testing dwarf_formref_die (...) != nullptr
         res = [n for n in g.nodes if n.kind == "cond" and isinstance(n.ast, dict) and any(c.get("fn") == "dwarf_formref_die" for c in calls(n.ast))]
         if len(res) != 1:
@@ -844,7 +853,7 @@ def g2(prog):
         "ctor:std::pair<*": lambda ev, o, a: (a[0], a[1]) if len(a) == 2 else (a[0] if a else None),
         "std::make_unique<value_die*": lambda ev, o, a: ("value_die", a[1]),
     }
-    ev = Evaluator(hooks, {}, ptr_lt=True)
+    ev = Evaluator(hooks, {}, ptr_lt=True, prog=prog)
     SPEC, AO = ats["DW_AT_specification"], ats["DW_AT_abstract_origin"]
     queried = [ats["DW_AT_name"], ats["DW_AT_inline"], ats["DW_AT_sibling"], ats["DW_AT_declaration"]]
     excluded = {ats["DW_AT_sibling"], ats["DW_AT_declaration"]}
